@@ -10,6 +10,7 @@ import (
 	"verif/mc/core"
 	"verif/mc/props/c08"
 	"verif/mc/props/c09"
+	"verif/mc/props/c10"
 	"verif/mc/props/c12"
 	"verif/mc/rs"
 	"verif/mc/typed"
@@ -65,6 +66,27 @@ func main() {
 			os.Exit(2)
 		}
 		os.Exit(0)
+	case "C10-generated-worker":
+		g := generatedEngine()
+		if g == nil {
+			fmt.Fprintln(os.Stderr, "CHECK-BROKEN: no generated engine linked")
+			os.Exit(2)
+		}
+		r = core.NewRun("C10", tier, "model_checking")
+		c10.TypedTargets(r, g)
+		if err := r.ExportPartial(os.Stdout); err != nil {
+			fmt.Fprintln(os.Stderr, "CHECK-BROKEN:", err)
+			os.Exit(2)
+		}
+		os.Exit(0)
+	case "C10":
+		if !replay {
+			fmt.Fprintln(os.Stderr, "mctyped C10: replay only (the check itself is cmd/mc C10)")
+			os.Exit(2)
+		}
+		var c c10.TypedDecCase
+		json.Unmarshal(rf.Case, &c)
+		c10.ReplayTyped(r, generatedEngine(), c)
 	case "C01":
 		// replay of a generated-code case of C01
 		if !replay {
